@@ -858,7 +858,8 @@ def gen_cases(rng, tier: str) -> list[dict]:
 
     def add(**kw):
         kw.setdefault("seed", rng.randrange(1 << 16))
-        cases.append(kw)
+        if finding_class(kw) is None:        # those are probed once, through chk.finding (FINDING_PROBES)
+            cases.append(kw)
 
     fam_s = ["vector", "image", "dict", "discrete"]
     # --- off-policy: every claimed algorithm, num_envs <, =, > learn_step
@@ -867,7 +868,8 @@ def gen_cases(rng, tier: str) -> list[dict]:
         add(loop="off", algo=algo, family=rng.choice(fam_s), num_envs=ne, learn_step=rng.choice([1, 2, 3, 5, 8]),
             evo_steps=rng.choice([20, 22, 30]), max_steps=rng.choice([60, 70, 90]), batch_size=rng.choice([4, 8]),
             tm=rng.random() < 0.6, mutate_elite=rng.random() < 0.5, delay=rng.choice([0, 0, 10]),
-            ckpt=rng.choice([None, 20, 45]), via=rng.choice(["build", "create_population"]))
+            ckpt=rng.choice([None, 20, 45]), via=rng.choice(["build", "create_population"]),
+            ls_spread=rng.choice([0, 0, 1, 3]), bs_spread=rng.choice([0, 0, 2]), lr_spread=rng.choice([0.0, 0.5]))
     add(loop="off", algo="DQN", num_envs=2, learn_step=2, tm=True, mutate_elite=False, mut="params", pop=3)
     add(loop="off", algo="DDPG", num_envs=4, learn_step=1, tm=True, mut="hp", cap=32)
     add(loop="off", algo="TD3", num_envs=2, learn_step=7, tm=True, elitism=False)
@@ -932,6 +934,52 @@ def gen_cases(rng, tier: str) -> list[dict]:
         spread = rng.choice([0, d, 2 * d])
         add(loop=lp, start_steps=s0, start_spread=spread, start_hist=rng.random() < 0.5,
             max_steps=rng.choice([s0 + 2 * d, s0 + spread, s0 + spread + 2 * d]), tm=rng.random() < 0.4, mut="none", **kw)
+    # --- learn scheduling classes of learn_step vs num_envs that the integer divisions treat differently:
+    #     num_envs < learn_step < 2*num_envs (learn_step // num_envs == 1), learn_step < num_envs not dividing it,
+    #     learn_step an exact multiple, learn_step > 2*num_envs not a multiple
+    add(loop="maoff", algo="MADDPG", kind="box", num_envs=2, learn_step=3, evo_steps=20, max_steps=40)
+    add(loop="maoff", algo="MATD3", kind="box", num_envs=4, learn_step=rng.choice([5, 6, 7]), evo_steps=20, max_steps=40,
+        ls_spread=rng.choice([0, 1]))
+    add(loop="off", algo="DQN", num_envs=3, learn_step=rng.choice([4, 5]), evo_steps=21, max_steps=42)
+    add(loop="off", algo="DDPG", num_envs=4, learn_step=3, evo_steps=20, max_steps=40, ls_spread=rng.choice([0, 4]))
+    if rng.random() < 0.5:
+        add(loop="off", algo="TD3", num_envs=2, learn_step=rng.choice([4, 5, 7]), evo_steps=20, max_steps=40)
+    else:
+        add(loop="maoff", algo="MADDPG", kind="box", num_envs=2, learn_step=rng.choice([4, 5, 7]), evo_steps=20, max_steps=40)
+    # --- populations as HPO mutations leave them: members with different learn_step take a different number of
+    #     environment steps per generation in the on-policy loops; the budget is placed in the gap between what
+    #     slot 0 alone suggests and what the documented rule says (any agent / sum over the population)
+    def on_steps(evo, ls, ne):
+        return -(-evo // ls) * -(-ls // ne) * ne
+
+    for lp, algo, kind in (("maon", "IPPO", "box"), ("on", "PPO", None)):
+        for slow_first in (True, False):
+            for _try in range(50):
+                ne = rng.choice([1, 2, 3])
+                evo = rng.choice([12, 20, 25])
+                l0, l1 = rng.choice([2, 4, 5, 8]), rng.choice([6, 9, 12, 16])
+                d0, d1 = on_steps(evo, l0, ne), on_steps(evo, l1, ne)
+                if d0 != d1:
+                    break
+            if (d0 > d1) == slow_first:
+                l0, l1, d0, d1 = l1, l0, d1, d0          # slot 0 is the slower stepper iff slow_first
+            g = rng.choice([1, 2])
+            if lp == "maon":
+                lo, hi, prev = 2 * g * min(d0, d1), g * (d0 + d1), (g - 1) * (d0 + d1)
+            else:
+                lo, hi, prev = g * min(d0, d1), g * max(d0, d1), (g - 1) * max(d0, d1)
+            mx = rng.randint(max(lo, prev) + 1, hi)
+            add(loop=lp, algo=algo, kind=kind, num_envs=ne if lp == "on" else rng.choice([None, ne]) if ne == 1 else ne,
+                evo_steps=evo, learn_step=l0, ls_spread=l1 - l0, max_steps=mx, bs_spread=rng.choice([0, 2]),
+                lr_spread=rng.choice([0.0, 0.5]), tm=False)
+    # --- bandits: when does the shared memory first hold a batch - inside the first agent's episode, between two
+    #     agents of one generation, exactly at an episode / generation boundary, or only in a later generation
+    for algo, bs, ep, n, spread in (("NeuralUCB", 8, 5, 2, 0), ("NeuralTS", 8, 3, 3, 0), ("NeuralUCB", 5, 5, 2, 0),
+                                    ("NeuralTS", 10, 5, 2, 0), ("NeuralTS", 6, 5, 2, 0), ("NeuralUCB", 18, 5, 2, 0),
+                                    ("NeuralUCB", 4, 5, 2, 5), ("NeuralTS", 9, 4, 3, -3)):
+        add(loop="bandit", algo=algo, batch_size=bs, bs_spread=spread, episode_steps=ep, pop=n, evo_steps=2 * ep,
+            max_steps=rng.choice([3, 4]) * ep, learn_step=rng.choice([1, 2]), ls_spread=rng.choice([0, 1]),
+            eval_steps=3, tm=rng.random() < 0.4, mut="none", lr_spread=rng.choice([0.0, 0.5]))
     extra = 6 if tier == "quick" else 200
     for _ in range(extra):
         loop = rng.choice(["off", "off", "off", "on", "on", "offline", "bandit", "maoff", "maon"])
@@ -965,6 +1013,13 @@ def gen_cases(rng, tier: str) -> list[dict]:
         else:
             kw.update(episode_steps=rng.choice([4, 6, 10]), evo_steps=rng.choice([8, 10, 20]), max_steps=rng.choice([20, 30, 40]),
                       learn_step=rng.choice([1, 2, 3]), eval_steps=3)
+        if rng.random() < 0.5:
+            kw.update(bs_spread=rng.choice([0, 1, 3]), lr_spread=rng.choice([0.0, 0.5, 2.0]))
+            if loop in ("off", "maoff", "bandit"):
+                kw["ls_spread"] = rng.choice([0, 1, 2])
+        if loop == "bandit":
+            ep, n = kw["episode_steps"], kw["pop"]
+            kw["batch_size"] = max(2, rng.choice([ep - 1, ep, ep + 1, n * ep - 1, n * ep, n * ep + 1, n * ep + ep + 2, 4]))
         r = rng.random()
         if r < 0.2:
             m = kw["max_steps"]
